@@ -1,4 +1,6 @@
 """C19 - vector algebra and geometric queries: index tables and reduction offsets (no numerics)"""
+import re
+
 from .extract import AnalysisBroken
 from .facts import as_assign, estr, need_names, unwrap, walk
 from .readers import strip_casts
@@ -156,6 +158,8 @@ def run(ck, fb, fbd):
             ok = std in calls or std in lcalls
             full = any(x.get("pn", "") in ("std::transform", std) and "cbegin()" in estr(f.resolve(x["a"][0])) and "cend()" in estr(f.resolve(x["a"][1])) for b, i, x in f.nodes(("call",)))
             (ck.ok if (ok and full) else lambda r, w, t: ck.violate(r, w, t, "C19.compwise:%s" % name))("C19.compwise", f.where, "%s::%s uses %s over the full extent" % (f.cls.replace("OpenVolumeMesh::Geometry::", ""), name, std))
+    abs_reductions(ck, fb)
+    normal_attrib(ck, fb)
     # ---------------- geometry kernel
     ng = 0
     for f in fb.fns.values():
@@ -193,6 +197,91 @@ def run(ck, fb, fbd):
             ok = "(p2 - p1).cross((p3 - p2))" in txt.replace("this.", "") and "normalized()" in txt
             (ck.ok if ok else lambda r, w, t: ck.violate(r, w, t, "C19.geom:normal"))("C19.geom", f.where, "normal() = ((p2-p1) x (p3-p2)).normalized()")
     ck.floor("geometry_queries", ng, 12)
+
+
+def abs_reductions(ck, fb):
+    """max_abs / min_abs: the element is selected by comparing absolute values over the full extent"""
+    from .canon import Canon
+    ck.rule("C19.abs", "max_abs/min_abs select with std::max_element/std::min_element over [cbegin, cend) under the comparator abs(a) < abs(b) and return abs of the selected component; any other formulation is not judged (exit 2)")
+    n = 0
+    for name, std in (("max_abs", "max_element"), ("min_abs", "min_element")):
+        for f in vec_fns(fb, name=name):
+            n += 1
+            cn = Canon(f)
+            rets = [x for b, i, x in f.tops() if x.get("k") == "ret"]
+            s = cn.s(rets[0].get("x")) if len(rets) == 1 else ""
+            lln = re.search(r"\[lambda@(\d+)\]", s)
+            lam = [g for g in fb.fns.values() if g.kind == "lambda" and g.has_cfg and g.file == f.file and lln and g.line == int(lln.group(1))][:1]
+            m = re.fullmatch(r"abs\(\*(min_element|max_element)\(values_\.cbegin\(\), values_\.cend\(\), \[lambda@\d+\]\)\)", s)
+            if not m or len(lam) != 1:
+                raise AnalysisBroken("%s: %s is no longer abs(*std::%s(cbegin, cend, comparator)) (found '%s'): rule C19.abs cannot judge this formulation - re-audit" % (f.where, name, std, s[:90]))
+            lc = Canon(lam[0])
+            lrets = [x for b, i, x in lam[0].tops() if x.get("k") == "ret"]
+            ls = lc.s(lrets[0].get("x")) if len(lrets) == 1 else ""
+            ok = m.group(1) == std and ls == "(abs(P0) < abs(P1))"
+            (ck.ok if ok else lambda r, w, t: ck.violate(r, w, t, "C19.abs:%s" % name))("C19.abs", f.where, "%s::%s = abs(*std::%s(all components, abs(a) < abs(b))) (found %s with comparator %s)" % (f.cls.replace("OpenVolumeMesh::Geometry::", ""), name, std, m.group(1), ls))
+    ck.floor("abs_reductions", n, 4)
+
+
+def normal_attrib(ck, fb):
+    """NormalAttrib: face normals for every face from halfface 0, odd halffaces negated, vertex normals sum over ALL
+    boundary halffaces around the vertex"""
+    from .canon import Canon, origin
+    from .rule_l import atoms_at, fmt_atoms
+    ck.rule("C19.normals", "NormalAttrib: update_face_normals stores normal(halfface 0) for every face; operator[](halfface) negates for the odd side; compute_vertex_normal visits every outgoing halfedge and every halfface around it without leaving a loop early, collects exactly the boundary halffaces in a std::set, sums operator[] over the whole set, normalises and stores at the vertex; update_vertex_normals does this for every vertex after the face normals")
+    fs = [f for f in fb.fns.values() if f.has_cfg and f.cls and f.cls.startswith("OpenVolumeMesh::NormalAttrib<") and "/Attribs/NormalAttrib" in f.file]
+    by = {}
+    for f in fs:
+        by.setdefault((f.name, f.where), f)
+    names = {k[0] for k in by}
+    for need in ("compute_vertex_normal", "update_vertex_normals", "update_face_normals", "operator[]"):
+        if need not in names:
+            raise AnalysisBroken("anchor vanished: NormalAttrib::%s" % need)
+    n = 0
+    for (name, where), f in sorted(by.items()):
+        cn = Canon(f)
+        if name == "compute_vertex_normal":
+            n += 1
+            early = []
+            for hdr, body, backs in f.loops():
+                for bb in body:
+                    if bb != hdr and any(s_ is not None and s_ not in body for s_ in f.succ(bb)):
+                        early.append(bb)
+            (ck.ok if not early else lambda r, w, t: ck.violate(r, w, t, "C19.normals:early"))("C19.normals", f.where, "compute_vertex_normal leaves no loop early (%d loops%s)" % (len(f.loops()), "" if not early else "; break/return in block(s) %s" % sorted(set(early))))
+            sets = [vid for vid, (v, b, i) in cn.decl.items() if v["t"].startswith("std::set<OpenVolumeMesh::HFH")]
+            ins = [(bb, m) for vid in sets for k, bb, ii, m in cn.mods.get(vid, []) if m.get("pn", "").split("::")[-1] in ("insert", "emplace")]
+            ok = len(ins) == 1
+            why = "%d insert site(s)" % len(ins)
+            if ok:
+                bb, m = ins[0]
+                x = cn.s(m["a"][0])
+                at = {(cn.s(c), pol) for c, pol, e in f.facts(bb) if isinstance(pol, bool) and (f.term(e[0]) or {}).get("c") not in ("ForStmt", "WhileStmt", "CXXForRangeStmt", "DoStmt")}
+                o1 = origin(cn, m["a"][0])
+                o2 = origin(cn, o1[1]) if o1 else None
+                ok = at == {("is_boundary(%s)" % x, True)} or at == {("kernel_->is_boundary(%s)" % x, True)} or (len(at) == 1 and list(at)[0][1] is True and list(at)[0][0].endswith("is_boundary(%s)" % x))
+                ok = ok and bool(o1 and o1[0] == "halffaces_of_halfedge" and o2 and o2[0] == "outgoing_halfedges_of_vertex" and cn.s(o2[1]) == "P0")
+                why = "insert of %s under %s" % (x[:50], sorted(at))
+            (ck.ok if ok else lambda r, w, t: ck.violate(r, w, t, "C19.normals:collect"))("C19.normals", f.where, "compute_vertex_normal collects exactly the boundary halffaces around the outgoing halfedges of the vertex (%s)" % why)
+            txt = " ".join(cn.s(x) for b, i, x in f.tops())
+            acc = [y for b, i, x in f.tops() for y in [as_assign(x)] if y and y[2] == "+="]
+            ok = len(acc) == 1 and bool(sets) and "normalize()" in txt and "v_normals_[P0]" in txt
+            (ck.ok if ok else lambda r, w, t: ck.violate(r, w, t, "C19.normals:sum"))("C19.normals", f.where, "the sum over the collected set is normalised and stored at the vertex")
+        elif name == "update_face_normals":
+            n += 1
+            asg = [(b, y) for b, i, x in f.tops() for y in [as_assign(x)] if y]
+            ok = len(asg) == 1 and cn.s(asg[0][1][0]).endswith("f_normals_[each(kernel_.faces())]") and "normal(each(kernel_.faces()).halfface_handle(0))" in cn.s(asg[0][1][1])
+            (ck.ok if ok else lambda r, w, t: ck.violate(r, w, t, "C19.normals:faces"))("C19.normals", f.where, "update_face_normals: f_normals_[f] = normal(halfface 0 of f) for every face (%s)" % [cn.s(a[1][0]) + " = " + cn.s(a[1][1]) for a in asg][:1])
+        elif name == "update_vertex_normals":
+            n += 1
+            calls = [cn.s(x) for b, i, x in f.tops() if x.get("k") == "call"]
+            ok = any(c.endswith("compute_vertex_normal(each(kernel_.vertices()))") for c in calls) and any("update_face_normals()" in c for c in calls)
+            (ck.ok if ok else lambda r, w, t: ck.violate(r, w, t, "C19.normals:vertices"))("C19.normals", f.where, "update_vertex_normals recomputes the face normals and then every vertex")
+        elif name == "operator[]" and "HFH" in f.d["params"][0]["t"]:
+            n += 1
+            txt = " ".join(cn.s(x) for b, i, x in f.tops())
+            ok = "= -1" in txt and ("((P0.idx() % 2) == 1)" in txt or "(P0.subidx() == 1)" in txt) and ("f_normals_[face_handle(P0)] * v0" in txt or "f_normals_[P0.face_handle()] * v0" in txt)
+            (ck.ok if ok else lambda r, w, t: ck.violate(r, w, t, "C19.normals:side"))("C19.normals", f.where, "operator[](halfface) = face normal, negated for the odd side")
+    ck.floor("normal_attrib_functions", n, 4)
 
 
 def lit_or_var_index(e):
